@@ -1,4 +1,5 @@
 """C09 — order laws: structure of the comparison / arithmetic implementations."""
+import re
 from .. import cg, mir, util
 from .. import ordeval as oe
 from ..facts import AnchorError
@@ -194,6 +195,16 @@ def i2_arith(F, r):
         maxc = [t2 for _, t2 in mir.calls(fn) if t2["callee"].endswith("Ord::max")]
         if not maxc:
             r.fail(name + " range", "result length is not max(len) (components dropped)", F.loc(m))
+        # the result has max(len) components: nothing of bounded length may sit between the index range and the result (a zip with a fixed-size array or a
+        # take() silently drops the layers behind it)
+        bounding = [t2["callee"].split("::")[-1] for _, t2 in mir.calls(fn) if t2["callee"].split("::")[-1] in ("zip", "take", "take_while", "step_by", "chunks", "truncate", "resize")]
+        fixed = [fn["locals"][t2["dest"]["l"]] for _, t2 in mir.calls(fn) if not t2["dest"]["p"] and re.match(r"^\[f64; \d+\]$", fn["locals"][t2["dest"]["l"]] or "")]
+        arrays = [ty for ty in fn["locals"] if re.match(r"^\[f64; \d+\]$", ty or "")]
+        if bounding or arrays:
+            r.fail(name + " length", f"the element-wise result passes through {'a fixed-size array ' + arrays[0] if arrays else ''}{' / ' if arrays and bounding else ''}{', '.join(bounding)}: "
+                   "cost layers beyond that bound are silently dropped from every quote (goals with more objective layers)", F.loc(m))
+        else:
+            r.ok(name + " length", "collected straight from the index range 0..max(len)")
 
 
 def g1_goal_fold(F, r):
